@@ -1,15 +1,16 @@
 """C06 — UDP keeps datagram boundaries and the peer-to-session mapping (DESIGN.md §2 C06)."""
+import copy
+
 from .. import access
-from ..cfg import search, witness_str, elem_dominates
-from ..expr import show, walk, last, field_of, strip_wrappers, strip_casts, short, const_value, access_path
+from .. import facts as facts_mod
+from ..cfg import search, witness_str, elem_dominates, Forward
+from ..expr import show, walk, last, field_of, strip_wrappers, strip_casts, short, const_value, mentions_field
 from ..facts import AnalysisBroken
 from ..predabs import Vocab, PredAbs, A, Not, And, Or, T, F, translate, known_when, total
 from ..rules import common
-from .c02 import cb_invocations, cbset_leaf
-from .c01 import _result_var
 
 TITLE = "UDP keeps datagram boundaries and the peer-to-session mapping"
-TECHNIQUE = 'custom static analysis over clang-14 CFG facts: who-may-write tables for the peer index and datagram queue, owner-check dominance, must-lockset'
+TECHNIQUE = 'custom static analysis over clang-14 CFG facts: call-site inlining of same-class helpers, reaching definitions / canonical access paths, predicate abstraction with ghost counters and sentinel atoms, owner-check dominance'
 UDP = "iora::network::UdpEngine"
 FILE = "iora/network/detail/udp_engine.hpp"
 SESS, LST, ODG = UDP + "::Session", UDP + "::Listener", UDP + "::OutDg"
@@ -25,9 +26,16 @@ EXPLANATION = (
     "datagram); R4 the session a datagram is delivered on is the one indexed under the sender's address or the one just created and "
     "indexed under it, inserted and indexed before the accept announcement; R5 every erase of a peer-index entry is conditional on the "
     "entry mapping to the closing session (the index is conditionally written, so unconditional erase contradicts it); R6 index values are "
-    "ids of sessions inserted on the same path and a ServerPeer session leaves the table only through the index clean-up.")
+    "ids of sessions inserted on the same path and a ServerPeer session leaves the table only through the index clean-up; R9 the admission "
+    "cap (maxSessions) can make readFromListener drop a datagram only on paths on which the peer-index lookup for its source address has "
+    "failed - a peer that has an open session is never silenced by the cap.  All rules but R8 read the anchored functions with the calls "
+    "to private helpers of the engine folded in, and identify locals by dataflow (reaching definitions), not by name.")
+# exempt from the function-inventory guard (report.py): these rules judge the anchored functions with every call to a non-anchor
+# method of the engine replaced by the callee's body (flatten below), so a helper they have never seen is part of what they read
+_FOLLOW = "judged on the flattened function: calls to same-class helpers are replaced by the helpers' bodies (parameters bound to arguments, returns to the call's value)"
+FOLLOWS_HELPERS = {"C06-R%d" % i: _FOLLOW for i in (1, 2, 3, 4, 5, 6, 7, 9)}
 NOT_DECIDED = ["that the kernel preserves datagram boundaries", "truncation when ioReadChunk is smaller than the datagram (no MSG_TRUNC test exists; configuration)",
-               "ordering between datagrams", "datagrams dropped by the configured maxSessions admission cap (documented; noted, not reported)"]
+               "ordering between datagrams", "datagrams of NEW peers dropped by the configured maxSessions admission cap (documented; noted, not reported)"]
 
 
 def fn(ctx, name):
@@ -38,70 +46,771 @@ def calls(f, names):
     return [e for e in f.stmts() if e.node.get("k") == "call" and e.node.get("callee") in names]
 
 
-def r1(ctx, r):
-    for name in ("readFromListener", "onClient"):
-        f = fn(ctx, name)
+# ------------------------------------------------------------------ following helpers: call-site inlining over the raw CFG facts
+#
+# The obligations below are properties of what an anchored function DOES, not of how its body is cut into private helpers.  So every
+# rule looks at the *flattened* function: each call `this->h(args)` / `h(args)` to a method h of the same class that is not itself an
+# anchor is replaced by h's blocks (ids renumbered), with
+#   * one synthetic declaration `T p = <argument expression>` per parameter at the callee's entry (a parameter is then just a local
+#     that the dataflow below resolves to the caller's expression),
+#   * every `return X` turned into a declaration `R $ret = X` that jumps to the continuation, and
+#   * the call expression itself turned into a read of `$ret` (so `if (atCap())`, `sid = c ? a : acceptPeer()` are ordinary
+#     variable reads whose reaching definitions are the callee's return statements).
+# The result is an ordinary facts.Function; dominance, path search and the predicate abstraction work on it unchanged.
+
+ANCHOR_FNS = ("readFromListener", "onClient", "sendDo", "flushListener", "writeClient", "viaDo", "connectDo", "closeNow", "shutdownDrain", "key", "onListener")
+INLINE_DEPTH = 3
+
+
+def _walk_raw(x):
+    stack = [x]
+    while stack:
+        y = stack.pop()
+        if isinstance(y, dict):
+            yield y
+            stack.extend(v for v in y.values() if isinstance(v, (dict, list)))
+        elif isinstance(y, list):
+            stack.extend(v for v in y if isinstance(v, (dict, list)))
+
+
+class _Ids:
+    """first free node / block / declaration / try id of a raw function record"""
+
+    def __init__(self, raw):
+        n = b = d = t = 0
+        for blk in raw["blocks"]:
+            b = max(b, blk["id"])
+            for x in _walk_raw([blk.get("label"), blk.get("term"), blk["elems"]]):
+                for k in ("id", "e"):
+                    if isinstance(x.get(k), int):
+                        n = max(n, x[k])
+                if isinstance(x.get("d"), int):
+                    d = max(d, x["d"])
+                for k in ("try", "catch"):
+                    if isinstance(x.get(k), int):
+                        t = max(t, x[k])
+        for p in raw.get("params", []):
+            d = max(d, p.get("d", 0))
+        for tr in raw.get("trys", []):
+            t = max(t, tr["id"])
+        self.n, self.b, self.d, self.t = n + 1, b + 1, d + 1, t + 1
+
+
+def _inlinable(fb, f, node, want):
+    """the Function a call node may be replaced by, or None"""
+    if node.get("k") not in ("call", "mcall") or not node.get("callee"):
+        return None
+    if node["k"] == "mcall" and ((node.get("obj") or {}).get("k") != "this" or node.get("virt")):
+        return None         # another object's method (its `this` is not ours) or a virtual call (the body is not known statically)
+    chain = node.get("ichain", ())
+    cands = {}
+    for g in fb.by_name.get(node["callee"], []):
+        if g.ok and g.file == f.file and len(g.params) == len(node.get("args", [])) and g.kind not in ("ctor", "dtor", "lambda"):
+            cands[(g.file, g.line)] = g
+    if len(cands) != 1:
+        return None
+    g = list(cands.values())[0]
+    if g.name == f.name or g.name in chain or len(chain) >= INLINE_DEPTH or not want(g) or g.raw.get("variadic"):
+        return None
+    return g
+
+
+def _splice(raw, ids, blk, ei, call, G):
+    cb = copy.deepcopy(G.raw["blocks"])
+    gi = _Ids(G.raw)
+    noff, boff, doff, toff = ids.n, ids.b, ids.d, ids.t
+    elem = blk["elems"][ei]
+    ctry, ccatch = elem.get("try", 0), elem.get("catch", 0)
+    rett = G.raw.get("ret", "void")
+    retd = doff + gi.d if rett != "void" else None
+    chain = tuple(call.get("ichain", ())) + (G.name,)
+    for b in cb:
+        b["id"] += boff
+        b["succs"] = [s + boff if isinstance(s, int) else s for s in b["succs"]]
+        if isinstance(b.get("looptarget"), int):
+            b["looptarget"] += boff
+        for x in _walk_raw([b.get("label"), b.get("term"), b["elems"]]):
+            for k in ("id", "e", "cond", "fullcond"):
+                if isinstance(x.get(k), int):
+                    x[k] += noff
+            if isinstance(x.get("d"), int):
+                x["d"] += doff
+            for k in ("try", "catch"):
+                if isinstance(x.get(k), int) and x[k]:
+                    x[k] += toff
+            if "parm" in x:
+                x["iparm"] = x.pop("parm")
+            if x.get("k") in ("call", "mcall"):
+                x["ichain"] = chain
+        for x in list(_walk_raw(b["elems"])):        # (second pass: what it creates must not be renumbered again)
+            if x.get("k") == "ret":
+                v = x.pop("v", None)
+                if v is not None and retd is not None:
+                    x.update({"k": "decl", "vars": [{"n": "$ret", "d": retd, "t": rett, "init": v, "iret": True}]})
+                else:
+                    x.update({"k": "other", "cls": "InlinedReturn", "ch": [v] if v is not None else []})
+        for el in b["elems"]:
+            if "e" in el:
+                if ctry and not el.get("try"):
+                    el["try"] = ctry
+                if ccatch and not el.get("catch"):
+                    el["catch"] = ccatch
+    for tr in G.raw.get("trys", []):
+        t2 = dict(tr)
+        t2["id"] += toff
+        t2["parent"] = t2["parent"] + toff if t2.get("parent") else ctry
+        raw.setdefault("trys", []).append(t2)
+    ids.n += gi.n
+    ids.b += gi.b
+    ids.d += gi.d + 1
+    ids.t += gi.t
+
+    def fresh(n):
+        n = copy.deepcopy(n)
+        for x in _walk_raw(n):
+            if isinstance(x.get("id"), int):
+                x["id"] = ids.n
+                ids.n += 1
+        return n
+    # parameters: `T p = <argument>` at the callee's entry
+    pdecls = []
+    args = call.get("args", [])
+    for j, p in enumerate(G.params):
+        nid = ids.n
+        ids.n += 1
+        var = {"n": p.get("n") or "$p%d" % j, "d": p["d"] + doff, "t": p["t"], "init": fresh(args[j]), "iparm": j}
+        pdecls.append({"e": nid, "try": ctry, "catch": ccatch, "root": {"id": nid, "k": "decl", "l": call.get("l"), "vars": [var], "iparams": G.name}})
+    entry = next(b for b in cb if b["id"] == G.raw["entry"] + boff)
+    exit_ = next(b for b in cb if b["id"] == G.raw["exit"] + boff)
+    entry["elems"] = pdecls + entry["elems"]
+    # the call expression becomes a read of the returned value; its argument expressions stay (they are evaluated there)
+    keep = {"id": call["id"], "l": call.get("l"), "t": call.get("t"), "icall": call["callee"], "iargs": ([call["obj"]] if call.get("obj") else []) + list(args)}
+    call.clear()
+    call.update(keep)
+    if retd is not None:
+        call.update({"k": "var", "n": "$ret", "d": retd})
+    else:
+        call.update({"k": "other", "cls": "InlinedCall", "ch": []})
+    # split the calling block at the call
+    tail = {"id": ids.b, "elems": blk["elems"][ei:], "succs": blk["succs"]}
+    ids.b += 1
+    for k in ("term", "noreturn", "looptarget"):
+        if k in blk:
+            tail[k] = blk.pop(k)
+    blk["elems"] = blk["elems"][:ei]
+    blk["succs"] = [entry["id"]]
+    exit_["succs"] = [tail["id"]]
+    raw["blocks"].extend(cb + [tail])
+
+
+def flatten(fb, f, want):
+    """f with the calls to same-class helpers selected by want(Function) replaced by the helpers' bodies; (Function, names inlined)"""
+    if not f.ok:
+        return f, ()
+    raw, ids, done = None, None, []
+    src = f.raw
+    while True:
+        idmap = {}
+        for blk in src["blocks"]:
+            for el in blk["elems"]:
+                for x in _walk_raw([el.get("root"), el.get("v")]):
+                    if isinstance(x.get("id"), int) and "k" in x:
+                        idmap[x["id"]] = x
+        site = None
+        for blk in src["blocks"]:
+            for ei, el in enumerate(blk["elems"]):
+                node = idmap.get(el.get("e")) if "e" in el else None
+                if node is not None:
+                    g = _inlinable(fb, f, node, want)
+                    if g is not None:
+                        site = (blk, ei, node, g)
+                        break
+            if site:
+                break
+        if site is None:
+            break
+        if raw is None:
+            raw = copy.deepcopy(f.raw)      # first site: work on a private copy and look the site up again in it
+            ids = _Ids(raw)
+            src = raw
+            continue
+        _splice(raw, ids, *site)
+        done.append(site[3].name)
+        if len(done) > 80:
+            raise AnalysisBroken("%s: more than 80 helper calls to follow" % short(f.name))
+    if raw is None:
+        return f, ()
+    g = facts_mod.Function(raw)
+    g.lambdas, g.enclosing, g.flat_of = f.lambdas, f.enclosing, f
+    return g, tuple(done)
+
+
+# ------------------------------------------------------------------ value flow over one (flattened) function
+
+def _peel(n):
+    """through casts, std::move-like wrappers and copy / move constructions: the expression whose value is meant"""
+    while n is not None:
+        n = strip_wrappers(n)
+        if n is None:
+            return None
+        args = [a for a in n.get("args", []) if not a.get("def")] if n.get("k") == "ctor" else None
+        if args is not None and len(args) == 1 and (n.get("copy") or n.get("cls") in ("std::basic_string", "std::basic_string_view")):
+            n = args[0]
+            continue
+        if n.get("k") == "other" and n.get("cls") in ("ExprWithCleanups", "MaterializeTemporaryExpr", "CXXBindTemporaryExpr") and len(n.get("ch", [])) == 1:
+            n = n["ch"][0]
+            continue
+        return n
+    return None
+
+
+def _built_in_place(n):
+    """the initialiser constructs a new object (default / aggregate / converting construction) rather than naming an existing value:
+    such a local IS the object — it keeps its identity instead of standing for its initialiser"""
+    n = _peel(n)
+    if n is None:
+        return True
+    k = n.get("k")
+    return k in ("ctor", "ilist", "zero") or (k == "other" and n.get("cls") == "ImplicitValueInitExpr")
+
+
+def _is_null(n):
+    n = _peel(n) if n is not None else None
+    return n is not None and n.get("k") == "null"
+
+
+class Flow:
+    """reaching definitions of the locals of one function, and on top of them
+       canon(expr)  : a canonical form of an expression in which every local that has exactly one reaching definition is replaced by
+                      the canonical form of what it was defined as (so renamed locals, named temporaries, reference aliases and helper
+                      parameters all denote the expression they stand for); objects that are built in place (default-initialised, or
+                      whose address is taken) keep their identity ('var', decl id);
+       values(expr) : the expressions a value may have come from, through every reaching definition and both arms of `?:`."""
+
+    def __init__(self, f):
+        self.f = f
+        self.gen = {}       # (block id, idx) -> [(decl id, key)]
+        self.rhs = {}       # key -> defining expression (None: modified in place)
+        self.defelem = {}
+        self.escaped = set()
+        self.defs_of = {}   # decl id -> [key]
+        self.refs = {}      # reference-typed local -> the local it is bound to (a name for the same object), if it is bound to one
+        for n in f.nodes.values():
+            if n.get("k") == "un" and n.get("op") == "&":
+                v = strip_casts(n.get("v"))
+                if v is not None and v.get("k") == "var":
+                    self.escaped.add(v["d"])
+            elif n.get("k") == "decl":
+                for v in n["vars"]:
+                    i = _peel(v["init"]) if v.get("init") is not None else None
+                    if v.get("t", "").rstrip().endswith("&") and i is not None and i.get("k") == "var":
+                        self.refs[v["d"]] = i["d"]
+        for _ in range(4):      # taking the address of a reference takes the address of what it names
+            self.escaped |= {self.refs[d] for d in self.escaped if d in self.refs}
+        for e in f.stmts():
+            n = e.node
+            k = n.get("k")
+            out = []
+            if k == "decl":
+                for i, v in enumerate(n["vars"]):
+                    out.append((v["d"], (n["id"], i), v.get("init")))
+            elif k == "bin" and n["op"].endswith("=") and n["op"] not in ("==", "!=", "<=", ">="):
+                l = strip_casts(n["lhs"])
+                if l.get("k") == "var":
+                    out.append((l["d"], (n["id"], 0), n["rhs"] if n["op"] == "=" else None))
+            elif k == "un" and ("++" in n["op"] or "--" in n["op"]):
+                l = strip_casts(n["v"])
+                if l.get("k") == "var":
+                    out.append((l["d"], (n["id"], 0), None))
+            elif k == "opcall" and n.get("memberop") and n["args"] and strip_casts(n["args"][0]).get("k") == "var" and n["op"] in ("=", "+=", "-=", "|=", "&=", "++", "--"):
+                out.append((strip_casts(n["args"][0])["d"], (n["id"], 0), n["args"][1] if n["op"] == "=" and len(n["args"]) == 2 else None))
+            for (d, key, rhs) in out:
+                self.gen.setdefault((e.block.id, e.idx), []).append((d, key))
+                self.rhs[key] = rhs
+                self.defelem[key] = e
+                self.defs_of.setdefault(d, []).append(key)
+        self.flow = Forward(f, frozenset(), self._transfer, lambda a, b: a | b, eh=False)
+
+    def _transfer(self, st, e):
+        g = self.gen.get((e.block.id, e.idx))
+        if not g:
+            return st
+        ds = {d for (d, _) in g}
+        return frozenset(x for x in st if x[0] not in ds) | frozenset(g)
+
+    def reaching(self, var_node):
+        e = self.f.elem_for(var_node)
+        st = self.flow.before(e) if e is not None else None
+        if st is None:
+            return [k for k in self.defs_of.get(var_node["d"], [])]
+        return [k for (d, k) in st if d == var_node["d"]]
+
+    def canon(self, n, depth=0, seen=()):
+        n = _peel(n)
+        if n is None:
+            return ("?", None)
+        k = n.get("k")
+        c = self.canon
+        if k == "this":
+            return ("this",)
+        if k == "var":
+            d = n.get("d")
+            if "parm" in n and d not in self.defs_of:
+                return ("param", n["parm"])
+            if (d in self.escaped and d not in self.refs) or depth > 14:
+                return ("var", d)
+            rs = self.reaching(n)
+            if len(rs) > 1:
+                # `return found ? p : nullptr` / `T *p = nullptr; if (…) p = x;`: as an access path a pointer denotes its non-null value
+                rs = [x for x in rs if not _is_null(self.rhs[x])] if len([x for x in rs if not _is_null(self.rhs[x])]) == 1 else rs
+            if len(rs) == 1 and rs[0] not in seen:
+                rhs = self.rhs[rs[0]]
+                if rhs is not None and not _built_in_place(rhs):
+                    return c(rhs, depth + 1, seen + (rs[0],))
+            return ("var", d)
+        if k in ("int", "bool", "char", "sizeof") or (k in ("gvar", "enum") and n.get("cv") is not None):
+            return ("const", n.get("cv"))
+        if k in ("gvar", "gref", "enum", "fref"):
+            return ("g", n["n"])
+        if k == "member":
+            return (".", c(n.get("b"), depth, seen), n["n"])
+        if k == "opcall" and n.get("op") in ("->", "*") and len(n["args"]) == 1:
+            return c(n["args"][0], depth, seen)
+        if k == "un" and n.get("op") in ("*", "&"):
+            return c(n["v"], depth, seen)
+        if k == "mcall" and last(n.get("callee", "")) in ("get", "load") and not [a for a in n["args"] if not a.get("def")]:
+            return c(n.get("obj"), depth, seen)
+        if k == "mcall":
+            return ("mcall", last(n.get("callee", "")), c(n.get("obj"), depth, seen), tuple(c(a, depth, seen) for a in n["args"] if not a.get("def")))
+        if k == "call":
+            return ("call", n.get("callee") or "?", tuple(c(a, depth, seen) for a in n["args"] if not a.get("def")))
+        if k == "opcall":
+            return ("op", n.get("op"), tuple(c(a, depth, seen) for a in n["args"]))
+        if k == "bin":
+            return ("bin", n["op"], c(n["lhs"], depth, seen), c(n["rhs"], depth, seen))
+        if k == "un":
+            return ("un", n["op"], c(n["v"], depth, seen))
+        if k == "cond":
+            if _is_null(n["t"]) != _is_null(n["f"]):
+                return c(n["f"] if _is_null(n["t"]) else n["t"], depth, seen)
+            return ("cond", c(n["c"], depth, seen), c(n["t"], depth, seen), c(n["f"], depth, seen))
+        if k == "idx":
+            return ("idx", c(n["b"], depth, seen), c(n["i"], depth, seen))
+        if k == "null":
+            return ("const", 0)
+        return ("?", n.get("id"))
+
+    def values(self, n):
+        out, seen = [], set()
+
+        def go(x, depth):
+            x = _peel(x)
+            if x is None:
+                return
+            if x.get("k") == "cond":
+                go(x["t"], depth + 1)
+                go(x["f"], depth + 1)
+                return
+            if x.get("k") == "var" and (x.get("d") not in self.escaped or x.get("d") in self.refs) and depth < 14 and not ("parm" in x and x["d"] not in self.defs_of):
+                rs = self.reaching(x)
+                if rs and all(self.rhs[r] is not None for r in rs):
+                    for r in rs:
+                        if r not in seen:
+                            seen.add(r)
+                            go(self.rhs[r], depth + 1)
+                    return
+            out.append(x)
+        go(n, 0)
+        return out
+
+
+def opaque_tests(f):
+    """calls into the repository's own code that a branch condition of f depends on and that were NOT folded in (another object's
+    method, a lambda, a function of another header): a rule that needs to know what such a branch establishes cannot judge it"""
+    out = []
+    for b in f.blocks.values():
+        c = b.cond
+        for x in (walk(c) if c is not None else ()):
+            if x.get("k") in ("call", "mcall", "opcall") and (x.get("callee") or "").startswith("iora::"):
+                out.append(x)
+    return out
+
+
+def need_known(r, ok, f, where, construct, msg, okdesc):
+    """an obligation of the form 'predicate P is established here': if it fails while a branch of f goes through a test the rule cannot
+    read, the failure may only mean that P is spelled through that test — refuse instead of reporting"""
+    if not ok:
+        op = opaque_tests(f)
+        if op:
+            raise AnalysisBroken("%s [%s]: the function branches on `%s`, which this rule cannot read (not a helper of the engine that could be folded in); "
+                                 "what that branch establishes is unknown" % (short(f.name), construct, show(op[0])[:60]))
+    return r.expect(ok, f, where, construct, msg, okdesc=okdesc)
+
+
+def cfield(c):
+    """last field on a canonical access path"""
+    return c[2] if isinstance(c, tuple) and c and c[0] == "." else None
+
+
+def cbase(c):
+    return c[1] if isinstance(c, tuple) and c and c[0] == "." else None
+
+
+class Sentinels:
+    """Atoms `local == constant` for the predicate abstraction: a helper that reports 'nothing to do' through a sentinel return value
+    (`return kNone;` … `if (id == kNone) continue;`) is the same control flow as the nested `if` it replaced.  Every local that a
+    branch compares with a constant gets an atom; at each definition of the local the atom is assigned from what is stored: a constant
+    (equal or not), another tracked local (its atom), `c ? a : b` (by the translated condition), or an expression the rule knows to
+    differ from the constant (`differs`); anything else makes it unknown."""
+
+    def __init__(self, f, flow, differs, budget=5):
+        self.f, self.flow, self.differs, self.budget = f, flow, differs, budget
+        self.atoms = {}
+        for b in f.blocks.values():
+            c = b.cond
+            if c is None:
+                continue
+            for x in walk(c):
+                for (op, l, rr) in common.cmp_both(x):
+                    l = strip_casts(l)
+                    if op in ("==", "!=") and l is not None and l.get("k") == "var" and self._const(rr) is not None and not ("parm" in l and l["d"] not in flow.defs_of):
+                        self._track(l["d"], self._const(rr))
+
+    @staticmethod
+    def _const(n):
+        n = strip_casts(n)
+        if n is not None and n.get("k") in ("int", "gvar", "enum", "bool", "char", "null") and (n.get("cv") is not None or n.get("k") == "null"):
+            return n.get("cv", 0)
+        return None
+
+    def _track(self, d, cv):
+        if (d, cv) in self.atoms or len(self.atoms) >= self.budget:
+            return
+        self.atoms[(d, cv)] = "eq:%s:%s" % (d, cv)
+        for key in self.flow.defs_of.get(d, []):
+            rhs = self.flow.rhs[key]
+            stack = [rhs]
+            while stack:
+                x = _peel(stack.pop())
+                if x is None:
+                    continue
+                if x.get("k") == "cond":
+                    stack += [x["t"], x["f"]]
+                elif x.get("k") == "var" and x["d"] in self.flow.defs_of:
+                    self._track(x["d"], cv)
+
+    def names(self):
+        return sorted(self.atoms.values())
+
+    def leaf(self, n):
+        for (op, l, rr) in common.cmp_both(n):
+            l = strip_casts(l)
+            if op in ("==", "!=") and l is not None and l.get("k") == "var" and (l["d"], self._const(rr)) in self.atoms:
+                a = A(self.atoms[(l["d"], self._const(rr))])
+                return a if op == "==" else Not(a)
+        return None
+
+    def _eq(self, x, cv, leaf):
+        x = _peel(x)
+        if x is None:
+            return None
+        if self._const(x) is not None:
+            return T if self._const(x) == cv else F
+        if x.get("k") == "var" and (x["d"], cv) in self.atoms:
+            return A(self.atoms[(x["d"], cv)])
+        if x.get("k") == "cond":
+            cf = total(translate(x["c"], leaf))
+            a, b = self._eq(x["t"], cv, leaf), self._eq(x["f"], cv, leaf)
+            if cf is None or a is None or b is None:
+                return None
+            return Or(And(cf, a), And(Not(cf), b))
+        if self.differs(x, cv):
+            return F
+        return None
+
+    def effects(self, e, leaf):
+        ops = []
+        for (d, key) in self.flow.gen.get((e.block.id, e.idx), []):
+            for (d2, cv), atom in self.atoms.items():
+                if d2 != d:
+                    continue
+                fm = self._eq(self.flow.rhs[key], cv, leaf) if self.flow.rhs[key] is not None else None
+                ops.append(("assign", atom, fm) if fm is not None else ("havoc", atom))
+        return ops
+
+
+class Model:
+    """flattened functions and their value flow, built once per run"""
+
+    def __init__(self, ctx):
+        self.fb = ctx.fb()
+        self._flat, self._flow, self.inlined = {}, {}, set()
+
+    def want(self, g):
+        # helpers of the engine: its own non-anchor methods, static methods of its nested types, free functions of the same header
+        mine = g.cls is None or g.cls == UDP or g.cls.startswith(UDP + "::")
+        return mine and g.file.endswith(FILE) and not (g.cls == UDP and last(g.name) in ANCHOR_FNS) and len(g.blocks) <= 120
+
+    def flat(self, f):
+        key = (f.name, f.file, f.line)
+        if key not in self._flat:
+            g, names = flatten(self.fb, f, self.want)
+            self._flat[key] = g
+            self.inlined |= set(names)
+        return self._flat[key]
+
+    def fn(self, name):
+        return self.flat(self.fb.func(UDP + "::" + name, file_suffix=FILE))
+
+    def flow(self, f):
+        if id(f) not in self._flow:
+            self._flow[id(f)] = Flow(f)
+        return self._flow[id(f)]
+
+    def roots(self):
+        """the functions of the engine that are judged on their own: everything that is not folded into its callers"""
+        fs = [f for f in self.fb.in_file(FILE) if f.ok and f.cls == UDP]
+        flats = [(f, self.flat(f)) for f in fs]
+        return [g for (f, g) in flats if f.name not in self.inlined]
+
+
+def model(ctx):
+    key = "_c06_model_" + ctx.config
+    if not hasattr(ctx, key):
+        setattr(ctx, key, Model(ctx))
+    return getattr(ctx, key)
+
+
+
+CBS = "iora::network::detail::EngineBase::Callbacks::"
+SREQ = UDP + "::SendReq"
+IDX, SESSIONS = UDP + "::_peerIndex", UDP + "::_sessions"
+INSERTS = ("emplace", "insert", "try_emplace")
+
+
+def result_decl(f, call_elem):
+    """declaration id of the local that receives the call's result (n = send(...); int n = send(...))"""
+    pid = f.parent.get(call_elem.node["id"])
+    while pid is not None:
+        p = f.nodes[pid]
+        if p.get("k") == "cast":
+            pid = f.parent.get(pid)
+            continue
+        if p.get("k") == "bin" and p["op"] == "=" and strip_casts(p["lhs"]).get("k") == "var":
+            return strip_casts(p["lhs"])["d"]
+        if p.get("k") == "decl":
+            for v in p["vars"]:
+                if v.get("init") is not None and any(x is call_elem.node for x in walk(v["init"])):
+                    return v["d"]
+        return None
+    return None
+
+
+def cb_invs(f, fl, cbname):
+    """invocations of the engine callback `cbname`: of the member itself or of a local every value of which is a copy of it"""
+    out = []
+    for (e, tgt) in common.fn_invocations(f):
+        if any(field_of(v) == CBS + cbname for v in fl.values(tgt)):
+            out.append(e)
+    return out
+
+
+def cbset_leaf(n):
+    """`if (cb)` on a copied std::function: the callback is assumed installed (DESIGN 1.3 A2 copy-then-invoke)"""
+    if n.get("k") == "mcall" and last(n.get("callee", "")).startswith("operator bool") and "std::function" in (n.get("obj") or {}).get("t", ""):
+        return T
+    return None
+
+
+def is_index_call(c, methods):
+    """canonical form of `_peerIndex.<method>(…)`"""
+    return isinstance(c, tuple) and c[0] == "mcall" and c[1] in methods and cfield(c[2]) == IDX
+
+
+def hit_key(fl, x):
+    """canonical key under which x reads the peer index (`find(K)->second`, `at(K)`), else None"""
+    c = fl.canon(x)
+    if cfield(c) == "std::pair::second" and is_index_call(cbase(c), ("find",)) and len(cbase(c)[3]) == 1:
+        return cbase(c)[3][0]
+    if is_index_call(c, ("at",)) and len(c[3]) == 1:
+        return c[3][0]
+    return None
+
+
+def id_valued(fl, x):
+    """'hit' for the value of a peer-index entry, 'fresh' for a newly allocated session id, else None"""
+    c = fl.canon(x)
+    if hit_key(fl, x) is not None:
+        return "hit"
+    if c[0] == "op" and c[1] == "++" and cfield(c[2][0]) == UDP + "::_nextSessionId":
+        return "fresh"
+    if c[0] == "mcall" and c[1] == "fetch_add" and cfield(c[2]) == UDP + "::_nextSessionId":
+        return "fresh"
+    return None
+
+
+class RecvModel:
+    """the receive loop of readFromListener / onClient (helpers folded in) under the predicate abstraction shared by R1, R4 and R9:
+       npos    the receive that just returned reported n > 0
+       once / twice   ghost counters of payload-carrying data events since that receive
+       capped  the admission test `sessionsCurrent >= maxSessions` holds for this datagram
+       newpeer the peer-index lookup under the sender's key found nothing
+       eq:…    sentinel atoms (Sentinels)"""
+
+    def __init__(self, m, name):
+        self.name = name
+        self.f = f = m.fn(name)
+        self.fl = fl = m.flow(f)
         reads = calls(f, RECV)
         if len(reads) != 1:
             raise AnalysisBroken("%s: %d receive calls" % (name, len(reads)))
-        rd = reads[0]
-        nv = _result_var(f, rd)
-        if nv is None:
+        self.rd = rd = reads[0]
+        self.nd = nd = result_decl(f, rd)
+        if nd is None:
             raise AnalysisBroken("%s: receive result not kept" % name)
-        invs = cb_invocations(f, "onData")
-        vocab = Vocab(["npos", "once", "twice", "capped"])
+        self.invs = cb_invs(f, fl, "onData")
+        self.payload_invs = [e for e in self.invs if "nullptr" not in show(e.node)]     # the zero-length EOF-style event of onClient is a separate site
+        try:
+            floor = common.field_default(m.fb, "::UdpEngine", "_nextSessionId")
+        except AnalysisBroken:
+            floor = None
+        # session ids are allocated from a counter that starts above 0 and is only ever incremented (C02-R6), and the index only holds
+        # ids (R6): neither a fresh id nor an index hit equals the constant 0
+        self.sent = Sentinels(f, fl, lambda x, cv: cv == 0 and floor is not None and floor >= 1 and id_valued(fl, x) is not None)
+        base = ["npos", "once", "twice", "capped", "newpeer"]
+        vocab = Vocab(base + self.sent.names())
 
-        def leaf(n, nv=nv):
-            if n.get("k") == "bin" and n["op"] in (">", "<=", "<", "==", ">="):
-                l, rr = strip_casts(n["lhs"]), strip_casts(n["rhs"])
-                if l.get("k") == "var" and l["n"] == nv and const_value(rr) == 0 and rr.get("k") == "int":
-                    return {">": A("npos"), "<=": Not(A("npos")), "<": Not(A("npos")), "==": Not(A("npos")), ">=": None}[n["op"]]
-                if any(x.get("k") == "member" and x["n"].endswith("::maxSessions") for x in walk(n)) and n["op"] == ">=":
-                    return A("capped")
-            return cbset_leaf(n)
+        def leaf(n):
+            for (op, l, rr) in common.cmp_both(n):
+                l0 = strip_casts(l)
+                if l0 is not None and l0.get("k") == "var" and const_value(rr) == 0 and strip_casts(rr).get("k") == "int" and fl.values(l0) == [rd.node]:
+                    return {">": A("npos"), "<=": Not(A("npos")), "<": Not(A("npos")), "==": Not(A("npos"))}.get(op)
+                if op in (">=", "<") and mentions_field(rr, "::maxSessions") and not mentions_field(l, "::maxSessions") and mentions_field(l, "::sessionsCurrent"):
+                    return A("capped") if op == ">=" else Not(A("capped"))
+                if op in ("==", "!=") and is_index_call(fl.canon(rr), ("end", "cend")) and is_index_call(fl.canon(l), ("find",)):
+                    return A("newpeer") if op == "==" else Not(A("newpeer"))
+                if op in ("==", "!=", ">") and const_value(rr) == 0 and is_index_call(fl.canon(l), ("count",)):
+                    return A("newpeer") if op == "==" else Not(A("newpeer"))
+            if n.get("k") == "mcall" and is_index_call(fl.canon(n), ("count",)):
+                return Not(A("newpeer"))
+            return self.sent.leaf(n) or cbset_leaf(n)
+        self.leaf = leaf
 
-        def eff(e, rd=rd, invs=invs):
+        def eff(e):
+            ops = []
             if e is rd:
-                return [("havoc", "npos"), ("set", "once", False), ("set", "twice", False), ("set", "capped", False)]
-            if e in invs:
-                # positive payload deliveries only (the zero-length EOF-style event of onClient is a separate site)
-                if "nullptr" in show(e.node):
-                    return None
-                return [("assign", "twice", Or(A("twice"), A("once"))), ("set", "once", True)]
-            return None
-        pa = PredAbs(f, vocab, leaf, eff, init=And(Not(A("npos")), Not(A("once")), Not(A("twice")), Not(A("capped"))))
-        goal = Or(Not(A("npos")), And(A("once"), Not(A("twice"))), A("capped"))
+                ops = [("havoc", "npos"), ("set", "once", False), ("set", "twice", False), ("havoc", "capped"), ("havoc", "newpeer")]
+            elif e in self.payload_invs:
+                ops = [("assign", "twice", Or(A("twice"), A("once"))), ("set", "once", True)]
+            return ops + self.sent.effects(e, leaf)
+        self.pa = PredAbs(f, vocab, leaf, eff, init=And(Not(A("npos")), Not(A("once")), Not(A("twice"))), track_bools=True)
+
+    def cap_branch(self):
+        """the branch on whose outcome the cap test decides the path (the place to report), preferably in the anchored function itself"""
+        best = None
+        v = self.pa.v
+        for b in self.f.blocks.values():
+            c, st = b.cond, self.pa.flow.at_block_end(b)
+            if c is None or not st or v.entails(st, A("capped")):
+                continue
+            fm = translate(c, self.pa.leaf)
+            for lab in (True, False):
+                s2 = v.assume(st, known_when(fm, lab))
+                if s2 and v.entails(s2, A("capped")):
+                    e = self.f.elem_for(c)
+                    own = e is not None and getattr(self.f, "flat_of", self.f).line <= (e.line or 0) <= getattr(self.f, "flat_of", self.f).endline
+                    if best is None or (own and not best[0]):
+                        best = (own, e)
+        return best[1] if best else None
+
+    def holds(self, goal):
+        return self.pa.entails(self.rd, goal) and self.pa.exit_entails(goal)
+
+    def cap_test(self):
+        """the element at which the admission cap is tested (for the report position)"""
+        for x in self.f.nodes.values():       # (wherever it is spelled: a branch condition, a named bool, a helper's return value)
+            if x.get("k") in ("bin", "opcall") and self.leaf(x) in (A("capped"), Not(A("capped"))):
+                return self.f.elem_for(x)
+        return None
+
+
+def recv_model(ctx, name):
+    m = model(ctx)
+    if name not in m.__dict__.setdefault("_recv", {}):
+        m._recv[name] = RecvModel(m, name)
+    return m._recv[name]
+
+
+def r1(ctx, r):
+    for name in ("readFromListener", "onClient"):
+        rm = recv_model(ctx, name)
+        f, fl, rd, pa = rm.f, rm.fl, rm.rd, rm.pa
+        # exactly one data event per datagram; the only datagrams that may go undelivered are those refused by the admission cap
+        # (which ones the cap may refuse is R9's question)
+        goal = Or(Not(A("npos")), And(A("once"), Not(A("twice"))), And(A("capped"), Not(A("once"))))
         r.instance()
-        st_loop = pa.before(rd)
-        ok_loop = pa.entails(rd, goal)
-        r.expect(ok_loop and pa.exit_entails(goal), f, rd, "%s: datagram not delivered exactly once" % name,
+        r.expect(rm.holds(goal), f, rd, "%s: datagram not delivered exactly once" % name,
                  "a received datagram (n > 0) can reach the next receive call or the function exit without exactly one data event (known at loop head: %s; at exit: %s): "
                  "datagrams are dropped, merged or duplicated" % (",".join(pa.describe(rd)), ",".join(pa.describe_exit())),
                  okdesc="%s: n > 0 ⇒ exactly one onData before the next receive" % name)
-        if "capped" in [a for a in vocab.atoms] and name == "readFromListener":
+        if name == "readFromListener" and rm.cap_test() is not None:
             r.note("readFromListener: datagrams from unknown peers are dropped when the configured maxSessions cap is reached (documented admission control)")
-        for e in invs:
-            if "nullptr" in show(e.node):
-                continue
+        # the event carries (buffer.data(), n) of that receive: the buffer is the object handed to the receive call, n its result
+        bufc = None
+        for x in walk(strip_wrappers(rd.node["args"][1])):
+            if x.get("k") == "var":
+                bufc = fl.canon(x)
+        for e in rm.payload_invs:
             r.instance()
-            bv = common.bufferview_args(e.node)
-            r.expect(bv == ["buf.data()", nv], f, e, "%s: payload" % name,
-                     "the data event does not carry (buf.data(), %s) of the receive that just returned: %s" % (nv, show(e.node)[:100]), okdesc="%s: onData(buf.data(), n)" % name)
+            bv = None
+            for x in walk(e.node):
+                if x.get("k") in ("ctor", "ilist", "cast") and "BufferView" in x.get("t", "") + x.get("cls", ""):
+                    args = x.get("args") or x.get("vals") or []
+                    if x.get("k") == "cast" and (x.get("v") or {}).get("k") in ("ilist", "ctor"):
+                        args = x["v"].get("args") or x["v"].get("vals") or []
+                    if len(args) == 2:
+                        bv = args
+                        break
+            ok = bv is not None and bufc is not None and fl.canon(bv[0]) == ("mcall", "data", bufc, ()) and [v for v in fl.values(bv[1])] == [rd.node]
+            r.expect(ok, f, e, "%s: payload" % name, "the data event does not carry (buffer.data(), n) of the receive that just returned: %s" % show(e.node)[:100],
+                     okdesc="%s: onData(buf.data(), n)" % name)
         # a fresh buffer per datagram
-        bufarg = strip_wrappers(rd.node["args"][1])
         bn = None
-        for x in walk(bufarg):
+        for x in walk(strip_wrappers(rd.node["args"][1])):
             if x.get("k") == "var":
                 bn = x
-        decls = [e for e in f.stmts() if e.node.get("k") == "decl" and bn is not None and any(v["d"] == bn.get("d") for v in e.node["vars"])]
+        bd = bn.get("d") if bn is not None else None
+        while bd in fl.refs:        # (a helper's reference parameter names the caller's buffer)
+            bd = fl.refs[bd]
+        decls = [e for e in f.stmts() if e.node.get("k") == "decl" and bd is not None and any(v["d"] == bd for v in e.node["vars"])]
         r.instance()
         ok = bool(decls) and search(f, rd, lambda x: x is rd, stop=lambda x: x in decls, eh=False) is None
         r.expect(ok, f, rd, "%s: buffer reused" % name, "the receive buffer outlives a loop iteration: bytes of consecutive datagrams can accumulate in one buffer",
                  okdesc="%s: receive buffer declared inside the loop" % name)
 
 
+def r9(ctx, r):
+    """'While a session that receives a peer's datagrams is open, further datagrams from that peer keep arriving on it': the admission
+    cap (maxSessions) exists to refuse NEW peers.  A datagram may therefore leave the loop undelivered under the cap only on paths on
+    which the peer-index lookup for its source address has failed; a cap test that is reached before, or regardless of, the lookup
+    silences every open session of the listener while the engine is full."""
+    rm = recv_model(ctx, "readFromListener")
+    r.instance()
+    ct = rm.cap_test()
+    if ct is None:
+        r.ok("readFromListener: no admission cap on the receive path")
+        return
+    goal = Not(And(A("npos"), Not(A("once")), A("capped"), Not(A("newpeer"))))
+    r.expect(rm.holds(goal), rm.f, rm.cap_branch() or ct, "session cap drops datagrams of routed peers",
+             "readFromListener can drop a datagram (n > 0, no data event) because the engine is at its session cap (sessionsCurrent >= maxSessions) on a path where the peer-index "
+             "lookup has not failed: the cap test is not confined to the peer-not-found side, so datagrams of a peer whose session is OPEN are silently discarded while the engine is "
+             "full (the cap is admission control for new peers only)", okdesc="readFromListener: the session cap refuses only peers that have no index entry")
+
+
 def r2(ctx, r):
-    sd = fn(ctx, "sendDo")
+    m = model(ctx)
+    sd = m.fn("sendDo")
+    fl = m.flow(sd)
     sends = calls(sd, SEND)
     if len(sends) < 2:
         raise AnalysisBroken("sendDo: %d send calls" % len(sends))
@@ -115,16 +824,19 @@ def r2(ctx, r):
     r.instance()
     r.expect(pa.exit_entails(Not(A("twice"))) and all(pa.entails(x, Not(A("twice"))) for x in common.returns(sd)), sd, sends[0], "two datagrams per command",
              "sendDo can issue more than one send/sendto for a single send command: the datagram is duplicated or split", okdesc="sendDo: at most one send/sendto per command")
+    P = (".", ("param", 0), SREQ + "::payload")      # the payload of the command this call handles
     for e in sends:
         r.instance()
-        a = [show(strip_wrappers(x)).replace(" ", "") for x in e.node["args"]]
-        r.expect("sr.payload.data()" in a and any(x.endswith("sr.payload.size()") for x in a), sd, e, "datagram not the payload",
-                 "%s is not given exactly (payload.data(), payload.size()): %s" % (e.node["callee"], a[1:3]), okdesc="%s(payload.data(), payload.size())" % e.node["callee"])
+        a = e.node["args"]
+        c1, c2 = fl.canon(a[1]), fl.canon(a[2])
+        r.expect(c1 == ("mcall", "data", P, ()) and c2 == ("mcall", "size", P, ()), sd, e, "datagram not the payload",
+                 "%s is not given exactly (payload.data(), payload.size()) of the command: %s" % (e.node["callee"], [show(strip_wrappers(x)) for x in a[1:3]]),
+                 okdesc="%s(payload.data(), payload.size())" % e.node["callee"])
     # send flags: a datagram socket is corked by MSG_MORE (0x8000) — the payload is held back and the next send is APPENDED to
     # it, its destination ignored — so the flags of every datagram send are constants without that bit
     MSG_MORE, OK_BITS = 0x8000, 0x4000 | 0x40      # allowed: MSG_NOSIGNAL, MSG_DONTWAIT
     nfl = 0
-    for f in (sd, fn(ctx, "flushListener"), fn(ctx, "writeClient")):
+    for f in (sd, m.fn("flushListener"), m.fn("writeClient")):
         inits = {}
         for e in f.stmts():
             if e.node.get("k") == "decl":
@@ -133,8 +845,8 @@ def r2(ctx, r):
                         inits[dv["d"]] = dv["init"]
         for e in calls(f, ("sendto", "send", "sendmsg")):
             a = e.node["args"]
-            fl = a[3] if e.node["callee"] in ("sendto", "send") and len(a) > 3 else (a[2] if len(a) > 2 else None)
-            if fl is None:
+            fl_ = a[3] if e.node["callee"] in ("sendto", "send") and len(a) > 3 else (a[2] if len(a) > 2 else None)
+            if fl_ is None:
                 raise AnalysisBroken("%s: flags argument of %s not found" % (short(f.name), e.node["callee"]))
             nfl += 1
             consts, opaque = [], []
@@ -157,7 +869,7 @@ def r2(ctx, r):
                     collect(n["f"], depth)
                     return
                 opaque.append(show(n)[:30])
-            collect(fl)
+            collect(fl_)
             if opaque:
                 raise AnalysisBroken("%s: flags of %s contain `%s`, not a combination of constants" % (short(f.name), e.node["callee"], opaque[0]))
             bits = 0
@@ -170,7 +882,7 @@ def r2(ctx, r):
     if nfl < 3:
         raise AnalysisBroken("only %d datagram send sites with flags found" % nfl)
     # nothing builds a partial range from the payload (the stream idiom must not leak into UDP)
-    for f in (sd, fn(ctx, "flushListener"), fn(ctx, "writeClient")):
+    for f in (sd, m.fn("flushListener"), m.fn("writeClient")):
         for e in f.stmts():
             n = e.node
             bad = None
@@ -186,181 +898,217 @@ def r2(ctx, r):
                 r.instance()
                 r.fail(f, e, "datagram split", "%s: %s of a datagram payload — a datagram must be sent whole or not at all" % (short(f.name), bad))
     # a queued datagram is never modified (merging or splitting queue elements changes datagram boundaries)
-    for f in (sd, fn(ctx, "flushListener"), fn(ctx, "writeClient"), fn(ctx, "closeNow")):
+    for f in (sd, m.fn("flushListener"), m.fn("writeClient"), m.fn("closeNow")):
         refs = set()
         for e in f.stmts():
             if e.node.get("k") == "decl":
                 for v in e.node["vars"]:
                     i = strip_wrappers(v.get("init")) if v.get("init") else None
-                    if i is not None and i.get("k") in ("mcall", "opcall") and field_of(common.obj_of(i) if hasattr(common, "obj_of") else (i.get("obj") or (i.get("args") or [None])[0])) in (SESS + "::wq", LST + "::wq") and "&" in v["t"]:
-                        refs.add(v["n"])
+                    if i is not None and i.get("k") in ("mcall", "opcall") and field_of(i.get("obj") or (i.get("args") or [None])[0]) in (SESS + "::wq", LST + "::wq") and "&" in v["t"] and "const" not in v["t"]:
+                        refs.add(v["d"])
         for e in f.stmts():
             n = e.node
             if n.get("k") not in ("mcall", "opcall"):
                 continue
-            m = last(n.get("callee", ""))
-            if m not in access.MUTATORS or m in ("pop_front",):
+            mth = last(n.get("callee", ""))
+            if mth not in access.MUTATORS or mth in ("pop_front",):
                 continue
             recv = n.get("obj") if n.get("k") == "mcall" else (n["args"][0] if n.get("memberop") and n["args"] else None)
             if recv is None:
                 continue
             via_elem = any(x.get("k") in ("mcall", "opcall") and last(x.get("callee", "")) in ("back", "front", "at", "operator[]") and
                            field_of(x.get("obj") or (x.get("args") or [None])[0]) in (SESS + "::wq", LST + "::wq") for x in walk(recv))
-            via_ref = any(x.get("k") == "var" and x["n"] in refs for x in walk(recv))
+            via_ref = any(x.get("k") == "var" and x.get("d") in refs for x in walk(recv))
             if via_elem or via_ref:
                 r.instance()
                 r.fail(f, e, "queued datagram modified", "%s changes a datagram that is already queued (`%s`): queue elements are whole datagrams and may only be sent and popped — "
                        "merging or trimming them changes datagram boundaries" % (short(f.name), show(n)[:90]))
-    # would-block: the whole payload is queued
+    # would-block: the whole payload is queued — on the connected socket's queue the command's payload itself, on the listener's queue a
+    # datagram object whose payload field is assigned the command's payload and nothing else
     qs = [e for e in sd.stmts() if (e.node.get("k") == "mcall" and last(e.node.get("callee", "")) in ("emplace_back", "push_back") and
                                     field_of(e.node.get("obj")) in (SESS + "::wq", LST + "::wq"))]
+    kinds = {field_of(e.node.get("obj")) for e in qs}
     r.instance()
-    r.expect(len(qs) >= 2, sd, None, "would-block not queued", "sendDo no longer queues the datagram on EAGAIN for both session kinds (found %d queueing sites)" % len(qs),
+    r.expect(kinds == {SESS + "::wq", LST + "::wq"}, sd, None, "would-block not queued", "sendDo no longer queues the datagram on EAGAIN for both session kinds (found %d queueing sites)" % len(qs),
              okdesc="sendDo queues on would-block (client and listener)")
-    moved = [e for e in sd.stmts() if "std::move(sr.payload)" in show(e.node) and e.node.get("k") in ("mcall", "opcall", "bin")]
-    r.instance()
-    r.expect(len(moved) >= 2, sd, None, "queued payload", "the queued datagram is not the whole moved payload", okdesc="whole payload moved into the queue element")
+    for e in qs:
+        r.instance()
+        ok = False
+        args = [a for a in e.node["args"] if not a.get("def")]
+        if len(args) == 1:
+            c = fl.canon(args[0])
+            if c == P:
+                ok = True
+            elif c[0] == "var":
+                ws = [x.node for x in sd.stmts() if x.node.get("k") in ("opcall", "bin") and x.node.get("op") == "=" and
+                      fl.canon((x.node.get("args") or [x.node.get("lhs")])[0]) == (".", c, ODG + "::payload")]
+                ok = bool(ws) and all(fl.canon((w.get("args") or [None, w.get("rhs")])[1]) == P for w in ws)
+            elif c[0] in ("?", "call", "mcall"):
+                raise AnalysisBroken("sendDo: the queued value `%s` is built in a shape this rule does not know" % show(args[0])[:60])
+        r.expect(ok, sd, e, "queued payload", "the datagram queued on would-block is not the whole payload of the command: `%s`" % show(e.node)[:90], okdesc="whole payload moved into the queue element")
     # flush: one whole element per send, popped exactly when sent or failed hard
     for name, fld in (("flushListener", LST + "::wq"), ("writeClient", SESS + "::wq")):
-        f = fn(ctx, name)
+        f = m.fn(name)
+        ff = m.flow(f)
         ws = calls(f, SEND)
         r.instance()
         if len(ws) != 1:
             r.fail(f, None, "%s: send sites" % name, "%s has %d send calls" % (name, len(ws)))
             continue
         w = ws[0]
-        fronts = [v for e in f.stmts() if e.node.get("k") == "decl" for v in e.node["vars"] if v.get("init") is not None and
-                  strip_wrappers(v["init"]).get("k") == "mcall" and last(strip_wrappers(v["init"]).get("callee", "")) == "front" and field_of(strip_wrappers(v["init"]).get("obj")) == fld]
-        dn = fronts[0]["n"] if len(fronts) == 1 else None
-        a = [show(strip_wrappers(x)).replace(" ", "") for x in w.node["args"]]
-        ok = dn is not None and any(x in (dn + ".data()", dn + ".payload.data()") for x in a) and any(x.endswith(dn + ".size()") or x.endswith(dn + ".payload.size()") for x in a)
-        r.expect(ok, f, w, "%s: not the front element" % name, "%s does not send exactly the front queue element's data()/size(): %s" % (name, a[1:3]),
+        c1, c2 = ff.canon(w.node["args"][1]), ff.canon(w.node["args"][2])
+        X = c1[2] if c1[0] == "mcall" and c1[1] == "data" and not c1[3] else None
+        E = cbase(X) if cfield(X) == ODG + "::payload" else X
+        ok = X is not None and c2 == ("mcall", "size", X, ()) and isinstance(E, tuple) and E[0] == "mcall" and E[1] == "front" and cfield(E[2]) == fld
+        r.expect(ok, f, w, "%s: not the front element" % name, "%s does not send exactly the front queue element's data()/size(): %s" % (name, [show(strip_wrappers(x)) for x in w.node["args"][1:3]]),
                  okdesc="%s: send(front.data(), front.size())" % name)
-        nv = _result_var(f, w)
-        vocab = Vocab(["sent", "eagain"])
+        vocab = Vocab(["sent", "eagain", "popped"])
 
-        def leaf(n, nv=nv):
-            if n.get("k") == "bin" and n["op"] in (">=", "<", ">"):
-                l, rr = strip_casts(n["lhs"]), strip_casts(n["rhs"])
-                if l.get("k") == "var" and l["n"] == nv and const_value(rr) == 0:
-                    return {">=": A("sent"), "<": Not(A("sent")), ">": None}[n["op"]]
-            if n.get("k") == "bin" and n["op"] == "==" and any(x.get("mac") in ("EAGAIN", "EWOULDBLOCK") for x in walk(n)):
-                return A("eagain")
+        def leaf(n, w=w, ff=ff):
+            for (op, l, rr) in common.cmp_both(n):
+                l0 = strip_casts(l)
+                if l0 is not None and l0.get("k") == "var" and const_value(rr) == 0 and ff.values(l0) == [w.node]:
+                    return {">=": A("sent"), "<": Not(A("sent"))}.get(op)
+            if n.get("k") == "bin" and n["op"] in ("==", "!=") and any(x.get("mac") in ("EAGAIN", "EWOULDBLOCK") for x in walk(n)):
+                return A("eagain") if n["op"] == "==" else None
             return None
-
-        def eff2(e, w=w):
-            if e is w:
-                return [("havoc_all", ["sent", "eagain"]), ("assume", Not(And(A("sent"), A("eagain"))))]
-            return None
-        pa2 = PredAbs(f, vocab, leaf, eff2)
         pops = common.member_calls_on(f, fld, ("pop_front", "pop_back", "erase", "clear"))
+
+        def eff2(e, w=w, pops=pops):
+            if e is w:
+                return [("havoc_all", ["sent", "eagain"]), ("assume", Not(And(A("sent"), A("eagain")))), ("set", "popped", False)]
+            if e in pops:
+                return [("set", "popped", True)]
+            return None
+        pa2 = PredAbs(f, vocab, leaf, eff2, init=And(Not(A("sent")), Not(A("eagain")), Not(A("popped"))), track_bools=True)
         for p in pops:
             r.instance()
-            r.expect(last(p.node["callee"]) == "pop_front" and pa2.entails(p, Not(A("eagain"))), f, p, "%s: queue element dropped on would-block" % name,
-                     "%s removes a queued datagram (%s) on a path where the send may merely have hit EAGAIN: the datagram is lost" % (name, last(p.node["callee"])),
-                     okdesc="%s: pop_front only after a completed or hard-failed send" % name)
+            need_known(r, last(p.node["callee"]) == "pop_front" and pa2.entails(p, Not(A("eagain"))), f, p, "%s: queue element dropped on would-block" % name,
+                       "%s removes a queued datagram (%s) on a path where the send may merely have hit EAGAIN: the datagram is lost" % (name, last(p.node["callee"])),
+                       okdesc="%s: pop_front only after a completed or hard-failed send" % name)
+        # a datagram the kernel accepted leaves the queue before the next send and before the function returns
         r.instance()
-        r.expect(any(pa2.entails(p, A("sent")) for p in pops), f, w, "%s: sent element not popped" % name, "a sent datagram is not removed from the queue: it would be sent again",
+        goal = Or(Not(A("sent")), A("popped"))
+        r.expect(pa2.entails(w, goal) and pa2.exit_entails(goal), f, w, "%s: sent element not popped" % name, "a sent datagram is not removed from the queue: it would be sent again",
                  okdesc="%s: sent element popped" % name)
 
 
 def r3(ctx, r):
-    sd = fn(ctx, "sendDo")
+    m = model(ctx)
+    sd = m.fn("sendDo")
+    fl = m.flow(sd)
+    # the session addressed by the command: the entry of _sessions found under the command's session id
+    finds = common.member_calls_on(sd, SESSIONS, ("find",))
+    if not finds:
+        raise AnalysisBroken("sendDo: no _sessions.find(): the session lookup has a shape this rule does not know")
+    r.instance()
+    r.expect(len(finds) == 1 and fl.canon(finds[0].node["args"][0]) == (".", ("param", 0), SREQ + "::sid"), sd, finds[0], "session lookup", "sendDo does not look the session up by the command's session id",
+             okdesc="_sessions.find(sr.sid)")
+    S = (".", fl.canon(finds[0].node), "std::pair::second")
     for e in calls(sd, ("sendto",)):
         r.instance()
-        a = [show(strip_wrappers(x)).replace(" ", "") for x in e.node["args"]]
-        r.expect(any(x.endswith("&s->peer") for x in a) and "s->plen" in a, sd, e, "destination not the session's peer",
-                 "sendto is addressed to %s, not to the peer stored in the session looked up by the command's id" % a[-2:], okdesc="sendto(…, &s->peer, s->plen)")
-    # s is the session found under sr.sid
-    finds = common.member_calls_on(sd, UDP + "::_sessions", ("find",))
+        a = e.node["args"]
+        r.expect(len(a) >= 6 and fl.canon(a[4]) == (".", S, SESS + "::peer") and fl.canon(a[5]) == (".", S, SESS + "::plen"), sd, e, "destination not the session's peer",
+                 "sendto is addressed to %s, not to the peer stored in the session looked up by the command's id" % [show(strip_wrappers(x)) for x in a[-2:]], okdesc="sendto(…, &s->peer, s->plen)")
+    # queued copy of the destination: the datagram object put on the listener's queue has `to` copied from that session's peer and
+    # `toLen` assigned from its plen (copied at queueing time — the session may be gone when the queue is flushed)
+    qs = [e for e in sd.stmts() if e.node.get("k") == "mcall" and last(e.node.get("callee", "")) in ("emplace_back", "push_back") and field_of(e.node.get("obj")) == LST + "::wq"]
     r.instance()
-    r.expect(len(finds) == 1 and "sr.sid" in show(finds[0].node), sd, finds[0] if finds else None, "session lookup", "sendDo does not look the session up by the command's session id",
-             okdesc="_sessions.find(sr.sid)")
-    sdecl = [v for e in sd.stmts() if e.node.get("k") == "decl" for v in e.node["vars"] if v["n"] == "s" and v["t"].endswith("Session *")]
-    r.instance()
-    r.expect(len(sdecl) == 1 and "it->second" in show(sdecl[0].get("init") or {}), sd, None, "session variable", "`s` is not the session found by that lookup", okdesc="s = it->second.get()")
-    # queued copy of the destination
-    cps = [e for e in calls(sd, ("memcpy", "std::memcpy")) if "to" in show(e.node["args"][0])]
-    asg = [e for e in sd.stmts() if e.node.get("k") == "bin" and e.node["op"] == "=" and field_of(e.node["lhs"]) == ODG + "::toLen"]
-    r.instance()
-    r.expect(len(cps) == 1 and "&s->peer" in show(cps[0].node).replace(" ", "") and len(asg) == 1 and show(asg[0].node["rhs"]) == "s->plen", sd, cps[0] if cps else None,
-             "queued destination", "the destination stored with a queued datagram is not a copy of the session's peer address/length", okdesc="OutDg.to/toLen copied from s->peer/s->plen")
-    fl = fn(ctx, "flushListener")
-    for e in calls(fl, ("sendto",)):
+    if not qs:
+        r.fail(sd, None, "queued destination", "sendDo does not queue on the listener's out-queue")
+    for e in qs:
+        args = [a for a in e.node["args"] if not a.get("def")]
+        c = fl.canon(args[0]) if len(args) == 1 else ("?", None)
+        if c[0] != "var":
+            raise AnalysisBroken("sendDo: the datagram queued for the listener (`%s`) is not a local object: shape not known to this rule" % show(e.node)[:60])
+        cps = [x for x in calls(sd, ("memcpy", "std::memcpy")) if fl.canon(x.node["args"][0]) == (".", c, ODG + "::to")]
+        asg = [x for x in sd.stmts() if x.node.get("k") == "bin" and x.node["op"] == "=" and fl.canon(x.node["lhs"]) == (".", c, ODG + "::toLen")]
+        ok = bool(cps) and all(fl.canon(x.node["args"][1]) == (".", S, SESS + "::peer") for x in cps) and bool(asg) and all(fl.canon(x.node["rhs"]) == (".", S, SESS + "::plen") for x in asg)
+        r.expect(ok, sd, cps[0] if cps else e, "queued destination", "the destination stored with a queued datagram is not a copy of the session's peer address/length", okdesc="OutDg.to/toLen copied from s->peer/s->plen")
+    f2 = m.fn("flushListener")
+    ff = m.flow(f2)
+    for e in calls(f2, ("sendto",)):
         r.instance()
-        a = [show(strip_wrappers(x)).replace(" ", "") for x in e.node["args"]]
-        r.expect(any(x.endswith("&d.to") for x in a) and "d.toLen" in a, fl, e, "flush destination", "flushListener does not address the queued datagram to its stored destination: %s" % a[-2:],
-                 okdesc="flushListener: sendto(…, &d.to, d.toLen)")
+        a = e.node["args"]
+        c1 = ff.canon(a[1])
+        E = cbase(c1[2]) if c1[0] == "mcall" and cfield(c1[2]) == ODG + "::payload" else None
+        r.expect(E is not None and len(a) >= 6 and ff.canon(a[4]) == (".", E, ODG + "::to") and ff.canon(a[5]) == (".", E, ODG + "::toLen"), f2, e, "flush destination",
+                 "flushListener does not address the queued datagram to its stored destination: %s" % [show(strip_wrappers(x)) for x in a[-2:]], okdesc="flushListener: sendto(…, &d.to, d.toLen)")
     # connected sessions use their own descriptor
     for e in calls(sd, ("send",)):
         r.instance()
-        r.expect(show(e.node["args"][0]) == "s->fd", sd, e, "client send fd", "connected-session send does not use the session's own descriptor", okdesc="send(s->fd, …)")
+        r.expect(fl.canon(e.node["args"][0]) == (".", S, SESS + "::fd"), sd, e, "client send fd", "connected-session send does not use the session's own descriptor", okdesc="send(s->fd, …)")
 
 
 def r4(ctx, r):
-    f = fn(ctx, "readFromListener")
-    rd = calls(f, RECV)[0]
+    rm = recv_model(ctx, "readFromListener")
+    f, fl, rd = rm.f, rm.fl, rm.rd
     frm = None
     for a in rd.node["args"]:
         for x in walk(a):
             if x.get("k") == "var" and "sockaddr_storage" in x.get("t", ""):
-                frm = x["n"]
+                frm = x
     if frm is None:
         raise AnalysisBroken("readFromListener: cannot identify the source-address variable")
-    # key variable = key(from)
-    kdecl = [v for e in f.stmts() if e.node.get("k") == "decl" for v in e.node["vars"] if v.get("init") is not None and
-             strip_wrappers(v["init"]).get("k") == "call" and strip_wrappers(v["init"]).get("callee") == UDP + "::key"]
+    KEY = ("call", UDP + "::key", (fl.canon(frm),))       # key(<the address the receive call reported>)
+    finds = common.member_calls_on(f, IDX, ("find", "count", "at"))
     r.instance()
-    ok = len(kdecl) == 1 and show(strip_wrappers(kdecl[0]["init"])["args"][0]) == frm
-    r.expect(ok, f, rd, "key not from source address", "the peer-index key is not computed from the address recvfrom reported", okdesc="k = key(from)")
-    kn = kdecl[0]["n"] if kdecl else "?"
-    finds = common.member_calls_on(f, UDP + "::_peerIndex", ("find",))
-    r.instance()
-    r.expect(len(finds) == 1 and show(finds[0].node["args"][0]) == kn, f, finds[0] if finds else None, "index lookup", "the index is not searched under the sender's key", okdesc="_peerIndex.find(k)")
-    # sid definitions
-    sids = [e for e in f.stmts() if e.node.get("k") == "bin" and e.node["op"] == "=" and e.node["lhs"].get("k") == "var" and e.node["lhs"]["n"] == "sid"]
-    r.instance()
-    srcs = sorted(show(e.node["rhs"]).replace(" ", "") for e in sids)
-    r.expect(len(sids) == 2 and any(s == "it->second" for s in srcs) and any("_nextSessionId" in s for s in srcs), f, sids[0] if sids else None, "delivery session",
-             "the session id used for delivery is assigned from %s, not from the index hit or a freshly allocated id" % srcs, okdesc="sid = it->second | _nextSessionId++")
-    invs = cb_invocations(f, "onData")
-    for e in invs:
+    r.expect(bool(finds) and all(fl.canon(x.node["args"][0]) == KEY for x in finds), f, finds[0] if finds else rd, "index lookup", "the peer index is not searched under key(source address of the datagram)",
+             okdesc="_peerIndex.find(key(from))")
+    # every value the delivery session id can hold is the index hit for that key or a freshly allocated id (whose session the accept
+    # path below inserts and indexes); a constant (a 'no session' sentinel) only if the path to the delivery excludes it
+    for e in rm.invs:
         r.instance()
-        r.expect(show(e.node["args"][1]) == "sid", f, e, "delivered on other session", "the datagram is delivered on `%s`" % show(e.node["args"][1]), okdesc="onData(sid, …)")
-    # accept path: inserted and indexed under k before the announcement
-    ins = common.member_calls_on(f, UDP + "::_sessions", ("emplace",))
-    idx = common.member_calls_on(f, UDP + "::_peerIndex", ("emplace", "insert", "try_emplace"))
-    acc = cb_invocations(f, "onAccept")
+        arg = e.node["args"][1]
+        bad = []
+        for v in fl.values(arg):
+            kind = id_valued(fl, v)
+            if kind == "hit" and hit_key(fl, v) == KEY:
+                continue
+            if kind == "fresh":
+                continue
+            cv = Sentinels._const(v)
+            a0 = strip_casts(arg)
+            atom = rm.sent.atoms.get((a0.get("d"), cv)) if cv is not None and a0.get("k") == "var" else None
+            if atom is not None and rm.pa.entails(e, Not(A(atom))):
+                continue
+            bad.append(show(v)[:60])
+        r.expect(not bad, f, e, "delivered on other session", "the datagram is delivered on a session id that can come from `%s`, which is neither the index entry of the sender's address nor "
+                 "the id of the session just created for it" % "`, `".join(bad), okdesc="onData(index hit | fresh id, …)")
+    # accept path: inserted and indexed under the key before the announcement
+    ins = common.member_calls_on(f, SESSIONS, INSERTS)
+    idx = common.member_calls_on(f, IDX, INSERTS)
+    acc = cb_invs(f, fl, "onAccept")
     r.instance()
     ok = len(ins) == 1 and len(idx) == 1 and acc and all(elem_dominates(f, ins[0], a) and elem_dominates(f, idx[0], a) for a in acc) and \
-        [show(x) for x in idx[0].node["args"][:2]] == [kn, "sid"] and show(ins[0].node["args"][0]) == "sid"
-    r.expect(ok, f, idx[0] if idx else None, "accept path", "a new peer's session is not inserted under `sid` and indexed under the sender's key before it is announced",
+        len(idx[0].node["args"]) >= 2 and fl.canon(idx[0].node["args"][0]) == KEY and id_valued(fl, idx[0].node["args"][1]) == "fresh" and \
+        fl.canon(ins[0].node["args"][0]) == fl.canon(idx[0].node["args"][1]) and all(fl.canon(a.node["args"][1]) == fl.canon(idx[0].node["args"][1]) for a in acc)
+    r.expect(ok, f, idx[0] if idx else None, "accept path", "a new peer's session is not inserted under its fresh id and indexed under the sender's key before it is announced",
              okdesc="accept: _sessions.emplace(sid) and _peerIndex.emplace(k, sid) before onAccept")
     # pkey stored in the session is that key (closeNow cleans the index by it)
     pk = [e for e in f.stmts() if e.node.get("k") in ("opcall", "bin") and e.node.get("op") == "=" and field_of((e.node.get("args") or [e.node.get("lhs")])[0]) == SESS + "::pkey"]
     r.instance()
-    r.expect(len(pk) == 1 and show((pk[0].node.get("args") or [None, pk[0].node.get("rhs")])[1]) == kn, f, pk[0] if pk else None, "session key", "the session does not remember the key it is indexed under",
+    r.expect(len(pk) == 1 and fl.canon((pk[0].node.get("args") or [None, pk[0].node.get("rhs")])[1]) == KEY, f, pk[0] if pk else None, "session key", "the session does not remember the key it is indexed under",
              okdesc="s->pkey = k")
 
 
 def r5(ctx, r):
-    fb = ctx.fb()
+    m = model(ctx)
     n = 0
-    for f in fb.in_file(FILE):
-        if not f.ok or f.cls != UDP:
-            continue
-        ers = common.member_calls_on(f, UDP + "::_peerIndex", ("erase", "clear"))
+    for f in m.roots():
+        ers = common.member_calls_on(f, IDX, ("erase", "clear"))
         if not ers:
             continue
+        fl = m.flow(f)
         vocab = Vocab(["own"])
 
-        def leaf(nn):
-            cp = common.cmp_parts(nn)
-            if cp and cp[0] == "==":
-                l, rr = strip_casts(cp[1]), strip_casts(cp[2])
-                for a, b in ((l, rr), (rr, l)):
-                    if a.get("k") == "member" and last(a["n"]) == "second" and (b.get("k") == "var" or b.get("k") == "member") and last(b.get("n", "")) in ("sid", "id"):
-                        return A("own")
+        def leaf(nn, fl=fl):
+            # `<index entry found by find()>->second == <id of a session>`: the entry maps to the closing session
+            for (op, l, rr) in common.cmp_both(nn):
+                if op in ("==", "!="):
+                    cl, cr = fl.canon(l), fl.canon(rr)
+                    if cfield(cl) == "std::pair::second" and is_index_call(cbase(cl), ("find",)) and cfield(cr) == SESS + "::id":
+                        return A("own") if op == "==" else Not(A("own"))
             return None
         pa = PredAbs(f, vocab, leaf, lambda e: None, track_bools=True)
         for e in ers:
@@ -371,62 +1119,61 @@ def r5(ctx, r):
                 reads = [x for x in f.stmts() if x.node.get("k") == "mcall" and x.node.get("callee") in (UDP + "::readFromListener", UDP + "::onListener", UDP + "::handleFdEvent")]
                 r.expect(not reads, f, e, "shutdownDrain dispatches", "shutdownDrain erases index entries unconditionally and also dispatches datagrams", okdesc="shutdownDrain: whole index dropped in one pass, no dispatch (exempt)")
                 continue
-            r.expect(last(e.node["callee"]) == "erase" and pa.entails(e, A("own")), f, e, "unowned peer-index erase",
-                     "%s erases a peer-index entry without having checked that it maps to the closing session: the index is written conditionally (connect-via-listener does not "
-                     "re-index an existing peer), so this can unroute another session's datagrams" % short(f.name), okdesc="%s: erase only when pit->second == sid" % short(f.name))
+            need_known(r, last(e.node["callee"]) == "erase" and pa.entails(e, A("own")), f, e, "unowned peer-index erase",
+                       "%s erases a peer-index entry without having checked that it maps to the closing session: the index is written conditionally (connect-via-listener does not "
+                       "re-index an existing peer), so this can unroute another session's datagrams" % short(f.name), okdesc="%s: erase only when pit->second == sid" % short(f.name))
     if n < 2:
         raise AnalysisBroken("expected peer-index erase sites in closeNow and shutdownDrain, found %d" % n)
-    # the premise: the conditional write is still there
-    via = fn(ctx, "viaDo")
-    idx = common.member_calls_on(via, UDP + "::_peerIndex", ("emplace", "insert"))
+    # the premise: the index is written only by insertions that keep an existing entry (emplace / insert / try_emplace)
+    via = m.fn("viaDo")
+    idx = common.member_calls_on(via, IDX, INSERTS)
     r.instance()
     r.expect(len(idx) == 1, via, None, "viaDo indexing", "viaDo has %d index insertions" % len(idx), okdesc="viaDo indexes the new session only if the peer is not indexed")
 
 
 def r6(ctx, r):
-    fb = ctx.fb()
-    for f in fb.in_file(FILE):
-        if not f.ok or f.cls != UDP:
-            continue
-        for e in common.member_calls_on(f, UDP + "::_peerIndex", ("emplace", "insert", "try_emplace")):
+    m = model(ctx)
+    for f in m.roots():
+        fl = None
+        for e in common.member_calls_on(f, IDX, INSERTS):
             r.instance()
-            v = show(e.node["args"][1]) if len(e.node["args"]) > 1 else "?"
-            ins = [i for i in common.member_calls_on(f, UDP + "::_sessions", ("emplace",)) if elem_dominates(f, i, e)]
+            fl = fl or m.flow(f)
+            v = fl.canon(e.node["args"][1]) if len(e.node["args"]) > 1 else ("?", None)
+            ins = [i for i in common.member_calls_on(f, SESSIONS, INSERTS) if elem_dominates(f, i, e)]
             ok = False
             for i in ins:
-                k = show(i.node["args"][0])
-                if k == v or (k == "s->id" and any(show(x.node).replace(" ", "") == "s->id=%s" % v for x in f.stmts() if x.node.get("k") == "bin")):
+                k = fl.canon(i.node["args"][0])
+                # the session is inserted under the indexed id itself, or under `s->id` of a session whose id field was assigned it
+                if k == v or (cfield(k) == SESS + "::id" and any(x.node.get("k") == "bin" and x.node["op"] == "=" and fl.canon(x.node["lhs"]) == k and fl.canon(x.node["rhs"]) == v for x in f.stmts())):
                     ok = True
             r.expect(ok, f, e, "index value without session", "%s indexes `%s` which is not the id of a session inserted on the same path: the next datagram from that peer "
-                     "dereferences a session that does not exist" % (short(f.name), v), okdesc="%s: indexed id is the inserted session's" % short(f.name))
+                     "dereferences a session that does not exist" % (short(f.name), show(e.node["args"][1]) if len(e.node["args"]) > 1 else "?"), okdesc="%s: indexed id is the inserted session's" % short(f.name))
     # index entries are never overwritten (emplace/insert keep an existing entry; operator[] / insert_or_assign take it over)
-    for f in fb.in_file(FILE):
-        if not f.ok or f.cls != UDP:
-            continue
-        for (g, e, n, kind) in [(f, f.elem_for(n), n, access.classify(f, n)) for n in f.nodes.values() if n.get("k") == "member" and n["n"] == UDP + "::_peerIndex"]:
+    for f in m.roots():
+        for (g, e, n, kind) in [(f, f.elem_for(n), n, access.classify(f, n)) for n in f.nodes.values() if n.get("k") == "member" and n["n"] == IDX]:
             par = f.nodes.get(f.parent.get(n["id"]))
             if par is None:
                 continue
-            m = last(par.get("callee", "")) if par.get("k") in ("mcall", "opcall") else ""
-            if m in ("operator[]", "insert_or_assign", "at") and kind in ("write", "rw"):
+            mth = last(par.get("callee", "")) if par.get("k") in ("mcall", "opcall") else ""
+            if mth in ("operator[]", "insert_or_assign", "at") and kind in ("write", "rw"):
                 r.instance()
                 r.fail(f, e, "peer index overwritten", "%s writes the peer index with `%s`, which replaces an existing entry: a peer that already has a receiving session is re-routed to "
                        "another session (and un-routed when that one closes)" % (short(f.name), show(f.nodes.get(f.parent.get(par["id"]), par))[:80]))
-    cn = fn(ctx, "closeNow")
+    cn = m.fn("closeNow")
     vocab = Vocab(["client", "idx"])
 
     def leaf(n):
         if n.get("k") == "bin" and n["op"] in ("==", "!=") and any(x.get("k") == "enum" and last(x["n"]) == "ClientConnected" for x in walk(n)):
             return A("client") if n["op"] == "==" else Not(A("client"))
         return None
-    touched = common.member_calls_on(cn, UDP + "::_peerIndex", ("find", "erase"))
+    touched = common.member_calls_on(cn, IDX, ("find", "erase"))
 
     def eff(e):
         if e in touched:
             return [("set", "idx", True)]
         return None
-    pa = PredAbs(cn, vocab, leaf, eff, init=Not(A("idx")))
-    for e in common.member_calls_on(cn, UDP + "::_sessions", ("erase",)):
+    pa = PredAbs(cn, vocab, leaf, eff, init=Not(A("idx")), track_bools=True)
+    for e in common.member_calls_on(cn, SESSIONS, ("erase",)):
         r.instance()
         r.expect(pa.entails(e, Or(A("client"), A("idx"))), cn, e, "index not cleaned", "a listener-side session is erased from _sessions on a path that never consulted the peer index: "
                  "a stale index entry makes the next datagram from that peer hit a missing session", okdesc="closeNow: ServerPeer sessions leave through the index clean-up")
@@ -438,21 +1185,15 @@ def r7(ctx, r):
     moment.  So a receive loop may stop only on would-block / error / (connected socket) the zero-length event: after a positive
     receive every path returns to the receive call."""
     for name in ("readFromListener", "onClient"):
-        f = fn(ctx, name)
-        reads = calls(f, RECV)
-        if len(reads) != 1:
-            raise AnalysisBroken("%s: %d receive calls" % (name, len(reads)))
-        rd = reads[0]
-        nv = _result_var(f, rd)
-        if nv is None:
-            raise AnalysisBroken("%s: receive result not kept" % name)
+        rm = recv_model(ctx, name)
+        f, rd = rm.f, rm.rd
         vocab = Vocab(["npos"])
 
-        def leaf(n, nv=nv):
-            if n.get("k") == "bin" and n["op"] in (">", "<=", "<", "==", ">="):
-                l, rr = strip_casts(n["lhs"]), strip_casts(n["rhs"])
-                if l.get("k") == "var" and l["n"] == nv and const_value(rr) == 0 and rr.get("k") == "int":
-                    return {">": A("npos"), "<=": Not(A("npos")), "<": Not(A("npos")), "==": Not(A("npos")), ">=": None}[n["op"]]
+        def leaf(n, rd=rd, fl=rm.fl):
+            for (op, l, rr) in common.cmp_both(n):
+                l0 = strip_casts(l)
+                if l0 is not None and l0.get("k") == "var" and const_value(rr) == 0 and strip_casts(rr).get("k") == "int" and fl.values(l0) == [rd.node]:
+                    return {">": A("npos"), "<=": Not(A("npos")), "<": Not(A("npos")), "==": Not(A("npos"))}.get(op)
             return None
 
         def eff(e, rd=rd):
@@ -549,3 +1290,4 @@ def run(ctx, ck):
     ck.run_rule("C06-R7", "receive loops drain the socket: after a datagram the loop always receives again (edge-triggered wake-ups)", "A5 + path search", lambda r: r7(ctx, r))
     ck.run_rule("C06-R8", "the peer-index key is injective in (family, address, port)", "closed-form shape rule over key(): numeric getnameinfo of the whole address, or whole-field byte copies", lambda r: r8(ctx, r))
     ck.run_rule("C06-R6", "peer index and session table stay coherent", "A2 + A5", lambda r: r6(ctx, r))
+    ck.run_rule("C06-R9", "the session cap refuses new peers only: a peer with an index entry is never silenced by it", "A5 over the flattened receive loop", lambda r: r9(ctx, r))
